@@ -50,6 +50,9 @@ func For(p *core.Prog) *Q {
 		if f.Pkg == nil && f.Object() == nil && f.Parent() == nil {
 			continue
 		}
+		if f.Synthetic != "" {
+			continue // wrappers, bound methods, thunks: share the name of the real function
+		}
 		q.funcs[FuncName(f)] = f
 	}
 	cache[p] = q
